@@ -74,7 +74,7 @@ class AnalyticProposal(Proposal):
             Keyword arguments passed to \
                 :py:meth:`~nessai.proposal.analytic.AnalyticProposal.populate`
         """
-        if not self.populated:
+        if not self.populated or not self.indices:
             st = datetime.datetime.now()
             self.populate(**kwargs)
             self.population_time += datetime.datetime.now() - st
